@@ -182,6 +182,19 @@ def check_octave(ctx, tag, res, mtext, text):
         N = [[sum(A[k][i] * cols[j][k] for k in range(m)) for j in range(n)] for i in range(n)]
         rhs = [sum(A[k][i] * cols[n][k] for k in range(m)) for i in range(n)]
         x = octave.solve(N, rhs)
+        # C_xx = m0^2 inv(A'PA) on the coordinate unknowns (C03 on general networks, through gama's own dump)
+        idx = [int(v) for row in env.get("Indexes", []) for v in row if int(v) > 0]
+        if x is not None and cxx is not None and len(idx) == len(cxx):
+            # C_ll of the script holds cofactors (covariances divided by m0 apriori squared): C_xx = m0^2 inv(A'PA) with the m0 in use
+            fac = res["aposteriori"] ** 2 if res.get("used") == "aposteriori" else res["apriori"] ** 2
+            for a_, ia in enumerate(idx):
+                unit = [1.0 if k == ia - 1 else 0.0 for k in range(n)]
+                col = octave.solve(N, unit)
+                for b_, ib in enumerate(idx):
+                    want = fac * col[ib - 1]
+                    if abs(cxx[b_][a_] - want) > 2e-6 * max(abs(want), abs(fac * col[ia - 1]), 1e-9):
+                        report("cxx_vs_normal", "C_xx(%d,%d) = %r, m0^2 inv(A'PA) gives %r" % (b_ + 1, a_ + 1, cxx[b_][a_], want))
+                        break
         if x is None:
             report("solve", "normal equations of the script are singular although the defect is 0")
         else:
